@@ -14,6 +14,9 @@ PARAMS = ["p0", "p1", "p2"]
 
 
 class CompositeInit(Contract):
+    def must_return(self, shape):
+        return True
+
     qual = "transforms:CompositeTransform.__init__"
     properties = ("C04", "C03")
     raises = {"ValueError": "periodic parameters without prior bounds / unknown bounded transform / zero-width interval"}
@@ -31,7 +34,16 @@ class CompositeInit(Contract):
                         if not b2u and bt == "probit":
                             continue
                         out.append({"periodic": per, "bounds_order": order, "b2u": b2u, "bt": bt, "affine": 1 if per == [] else 0})
+        # no prior bounds at all: nothing periodic, nothing bounded; affine on / off
+        for affine in (1, 0):
+            out.append({"periodic": [], "bounds_order": "none", "b2u": 1, "bt": "logit", "affine": affine})
+        out.append({"periodic": ["p1"], "bounds_order": "same", "b2u": 1, "bt": "probit", "affine": 1})
         return out
+
+    def post_raise(self, I, pre, sig):
+        # every shape is a valid combination of arguments: nothing may be raised for it
+        sh = pre.ghost["shape"]
+        I.path.prove(z3.BoolVal(False), f"{self.qual}:C04:a valid combination of arguments is accepted [{sig.exc}; periodic={sh['periodic']}, bounds {sh['bounds_order']}, {sh['bt']}]", assume_after=False)
 
     def setup(self, I, shape):
         p = I.path
@@ -39,8 +51,8 @@ class CompositeInit(Contract):
         hi = {nm: z3.Real(f"hi_{nm}") for nm in PARAMS}
         for nm in PARAMS:
             p.assume(lo[nm] < hi[nm])
-        keys = PARAMS if shape["bounds_order"] == "same" else list(reversed(PARAMS))
-        bounds = PyDict({nm: PyList([R(lo[nm]), R(hi[nm])]) for nm in keys})
+        keys = PARAMS if shape["bounds_order"] in ("same", "none") else list(reversed(PARAMS))
+        bounds = PyDict({nm: PyList([R(lo[nm]), R(hi[nm])]) for nm in keys}) if shape["bounds_order"] != "none" else NONE
         # all bounds finite (isfinite of a finite real): assumed fact about the uninterpreted predicate
         from pyvc.lib import ISFINITE
         for nm in PARAMS:
@@ -58,7 +70,24 @@ class CompositeInit(Contract):
         lo, hi = g["lo"], g["hi"]
         tag = f"[periodic={sh['periodic']}, bounds given in {sh['bounds_order']} order, bounded_to_unbounded={bool(sh['b2u'])}]"
         per_cols = [nm for nm in PARAMS if nm in sh["periodic"]]
-        bnd_cols = [nm for nm in PARAMS if nm not in sh["periodic"]] if sh["b2u"] else []
+        bnd_cols = [nm for nm in PARAMS if nm not in sh["periodic"]] if (sh["b2u"] and sh["bounds_order"] != "none") else []
+        # the settings the other methods (and config_dict / new_instance) read are stored as given
+        for attr, want in (("parameters", pre.kwargs["parameters"]), ("bounded_to_unbounded", pre.kwargs["bounded_to_unbounded"]), ("bounded_transform", pre.kwargs["bounded_transform"]),
+                           ("affine_transform", pre.kwargs["affine_transform"])):
+            got = o.f.get(attr)
+            p.prove(z3.BoolVal(got is want) if not isinstance(want, (Z, Str)) else I.equal(got, want) if got is not None else z3.BoolVal(False),
+                    f"{q}:C04:C13:attribute {attr} holds the constructor argument {tag}")
+        p.prove(z3.BoolVal("device" in o.f and "eps" in o.f), f"{q}:C04:C13:device and eps are stored {tag}")
+        pp = o.f.get("periodic_parameters")
+        p.prove(z3.BoolVal(isinstance(pp, PyList) and [v.v for v in pp.items] == list(sh["periodic"])), f"{q}:C04:periodic_parameters is the list given (empty list when none) {tag}")
+        at = o.f.get("_affine_transform")
+        p.prove(z3.BoolVal((isinstance(at, Obj) and at.cls == "AffineTransform") if sh["affine"] else isinstance(at, NoneV)),
+                f"{q}:C04:an AffineTransform is created exactly when affine_transform is requested {tag}")
+        if not per_cols:
+            p.prove(z3.BoolVal("_periodic_transform" not in o.f or isinstance(o.f["_periodic_transform"], NoneV)), f"{q}:C04:no periodic transform without periodic parameters {tag}")
+        if not bnd_cols:
+            bp = o.f.get("bounded_parameters")
+            p.prove(z3.BoolVal(isinstance(bp, NoneV) or (isinstance(bp, PyList) and not bp.items)), f"{q}:C04:no bounded parameters without bounds / when not requested {tag}")
 
         def lit(v):
             return v.meta.get("lit") if isinstance(v, Arr) else None
@@ -173,6 +202,9 @@ def _install_parts(I):
 
 
 class _CompositeApply(Contract):
+    def must_return(self, shape):
+        return True
+
     properties = ("C04", "C03")
     which = "forward"
     inline_depth = 8
@@ -220,6 +252,7 @@ class _CompositeApply(Contract):
             if ok:
                 p.prove(r.n == g["n"], f"{q}:C04:one output row per input row {tag}")
                 p.prove(r.at(i) == want_r, f"{q}:C04:fit(x) is forward(x)[0]: periodic, then bounded, then affine on their own columns {tag}")
+            p.prove(g["x"].at(i) == g["x_at"](i), f"{q}:C04:the input array is left unchanged {tag}")
             return
         ok = isinstance(r, Tup) and len(r.items) == 2 and isinstance(r.items[0], Arr) and r.items[0].elem == "row" and isinstance(r.items[1], Arr)
         p.prove(z3.BoolVal(ok), f"{q}:C04:returns (rows, log|det J| per row) {tag}")
